@@ -7,8 +7,11 @@ import (
 	"os"
 	"runtime"
 	"strings"
+	"sync"
 	"time"
 )
+
+var pathSem chan struct{}
 
 func main() {
 	opts := &Options{}
@@ -23,7 +26,7 @@ func main() {
 	flag.StringVar(&tier, "tier", "quick", "quick|thorough")
 	flag.IntVar(&opts.workers, "workers", runtime.NumCPU(), "parallel workers")
 	flag.IntVar(&opts.timeoutMs, "timeout", 30000, "solver timeout per query (ms)")
-	flag.StringVar(&opts.backend, "solver", "z3", "z3|z3-new|cvc5")
+	flag.StringVar(&opts.backend, "solver", "z3-new", "z3|z3-new|cvc5")
 	flag.BoolVar(&opts.verbose, "v", false, "verbose")
 	flag.IntVar(&wallSec, "wall", 0, "wall budget per harness in seconds (0 = none)")
 	flag.Int64Var(&opts.seed, "seed", 0, "seed")
@@ -57,12 +60,20 @@ func main() {
 		fmt.Fprintln(os.Stderr, "no harness found for", prop)
 		os.Exit(3)
 	}
-	var results []*HarnessResult
-	for _, h := range hs {
-		r := explore(prog, h, opts)
-		results = append(results, r)
+	results := make([]*HarnessResult, len(hs))
+	pathSem = make(chan struct{}, opts.workers)
+	var wg sync.WaitGroup
+	for i, h := range hs {
+		wg.Add(1)
+		go func(i int, h *Harness) {
+			defer wg.Done()
+			results[i] = explore(prog, h, opts)
+		}(i, h)
+	}
+	wg.Wait()
+	for _, r := range results {
 		fmt.Fprintf(os.Stderr, "%-44s %-12s paths=%d ok=%d infeasible=%d oblig=%d/%d queries=%d solver=%.1fs wall=%.1fs\n",
-			h.Name, r.Verdict, r.Paths, r.PathsOK, r.Infeasible, r.Discharged, r.Obligations, r.Queries, r.SolverSec, r.WallSec)
+			r.Name, r.Verdict, r.Paths, r.PathsOK, r.Infeasible, r.Discharged, r.Obligations, r.Queries, r.SolverSec, r.WallSec)
 		for _, v := range r.Violations {
 			fmt.Fprintf(os.Stderr, "    VIOLATED %s: %s @ %s (x%d)\n", v.Kind, v.Label, v.Site, v.Count)
 		}
